@@ -7,6 +7,7 @@ import DafRel.Model.Codec
 import DafRel.Model.Diagnostics
 import DafRel.Model.Processor
 import DafRel.Model.Sql
+import DafRel.Model.Names
 
 open DafRel
 open DafRel.Sexp
@@ -133,6 +134,16 @@ def Drv.adopt (d : Drv) (n : String) (r : Rel) : Drv × Rel :=
   (d'.setRel n r', r')
 
 def errLine (e : Err) : String := "err " ++ e.name
+
+/-- Remove the `#<serial>` tokens (object identity) from a printed tree. -/
+def stripSerials (s : String) : String :=
+  let step (st : String × Bool) (c : Char) : String × Bool :=
+    let (acc, skipping) := st
+    if skipping then
+      if c.isDigit then (acc, true) else (acc.push c, false)
+    else if c == '#' then (acc.push '#', true)
+    else (acc.push c, false)
+  (s.foldl step ("", false)).1
 
 /-- No positional slice sits above a transfer out of a SQL engine (whose row order is the
 database's business). -/
@@ -287,6 +298,21 @@ def step (d : Drv) (cmd : List Sexp) : Drv × String :=
       match t.transferredTo d.store e with
       | .error er => (d, errLine er)
       | .ok res => (d.setDirect n (d.direct? tn)).report n (if res.isSame then "same" else "new") (.ok (res.get t))
+    | _, _ => (d, "bad-ref")
+  -- (fmt PREFIX COUNTER HEX): the generated relation name for these ingredients
+  | [atom "fmt", atom pfx, atom c, atom hex] =>
+    match c.toNat? with
+    | some n => (d, "ok " ++ String.ofList (Names.formatName pfx.toList n hex.toList))
+    | none => (d, "bad-fmt")
+  -- (snap): relations are immutable values in the model: nothing ever changes
+  | [atom "snap"] => (d, "ok changed=[]")
+  -- (hash rA rB): hashability and value equality (dataclass __eq__: structure, not identity or payload)
+  | [atom "hash", atom an, atom bn] =>
+    match d.rel? an, d.rel? bn with
+    | some a, some b =>
+      let strip (r : Rel) : String := stripSerials (r.show (fun _ => false))
+      let eq := strip a == strip b
+      (d, s!"ok hashable=T equal={showBool eq} samehash={showBool eq}")
     | _, _ => (d, "bad-ref")
   -- (unwrap rN rT): the `skip_to` of a Select (a raw, unconformed relation)
   | [atom "unwrap", atom n, atom tn] =>
